@@ -210,6 +210,12 @@ fn case(t0: &mut Tape, w: &Worker) -> CaseResult {
         base.extend(Filter::Link(rdhs[ot.below(rdhs.len())].link_id).args());
         out.labels.push("with_filter".into());
     }
+    // the statistics path may exist already and hold a longer document from an earlier run: it is replaced, not patched
+    if ot.chance(1, 3) {
+        let filler = format!("{{\"leftover\": \"{}\"}}\n", "x".repeat(200_000));
+        let _ = std::fs::write(&stats_file, filler);
+        out.labels.push("stats_path_existed(longer)".into());
+    }
     let mut case = CliCase::new(w, bytes.clone());
     // ---- run 1 writes the file
     let mut a1 = base.clone();
@@ -361,7 +367,7 @@ fn case(t0: &mut Tape, w: &Worker) -> CaseResult {
 pub fn build() -> Property {
     Property {
         id: "C15",
-        rule: "Inputs {conforming, G_mut-corrupted, multi-link G_conf} x five check modes x {JSON, TOML} x mute x optional link filter x file/pipe ; a fifth of the cases in the modes that print no report (the three views, filtered data to stdout). Run 1 writes the statistics file; run 2 = same command + `-i file -E n -v2` must print `Input stats matched`, \
+        rule: "Inputs {conforming, G_mut-corrupted, multi-link G_conf} x five check modes x {JSON, TOML} x mute x optional link filter x file/pipe ; a fifth of the cases in the modes that print no report (the three views, filtered data to stdout). Run 1 writes the statistics file (in a third of the cases over an existing, longer file); run 2 = same command + `-i file -E n -v2` must print `Input stats matched`, \
                no mismatch message, exit n iff the data has errors. Drift of the file: every leaf of the independently parsed tree that the run collects (all of rdh_stats incl. its_stats / trigger_stats, error_stats, alpide_stats in stave mode; is_finalized excluded) \
                is perturbed one at a time, type-correctly (number +-1, string edited, enum value swapped, list element added / removed, option toggled), re-serialised with an independent library and verified: a `<statistic> mismatch!` message naming it (unless muted) and exit n. \
                Drift of the input: one link id / one trigger bit / one appended packet => the old file is rejected. Non-trivial = the data has errors and > 20 leaves were perturbed; the label histogram lists every statistic name that was perturbed.",
